@@ -306,6 +306,21 @@ func c10Unit(j *Job, u *JobUnit) error {
 				errSource{key: "handler_wrapped_sebuf_error", handler: func() (proto.Message, error) { return nil, wrappedSebuf }, status: 500, message: wrappedSebuf.Error(), handlerRuns: true},
 				errSource{key: "handler_wrapped_validation_error", handler: func() (proto.Message, error) { return nil, wrappedVE }, status: 500, message: wrappedVE.Error(), handlerRuns: true},
 			)
+			// size family: an error whose message / violation list is larger than 1 MiB on the wire must arrive whole
+			largeText := "large:" + strings.Repeat("L", 1<<20+4096)
+			var manyViolations []*sebufhttp.FieldViolation
+			var manyFields []string
+			for i := 0; i < 20000; i++ {
+				fn := fmt.Sprintf("items[%d].name", i)
+				manyViolations = append(manyViolations, &sebufhttp.FieldViolation{Field: fn, Description: "value length must be at least 3 characters, as required for every item of the list"})
+				manyFields = append(manyFields, fn)
+			}
+			sources = append(sources,
+				errSource{key: "handler_plain_error_large", handler: func() (proto.Message, error) { return nil, errors.New(largeText) }, status: 500, message: largeText, handlerRuns: true},
+				errSource{key: "handler_validation_error_large", handler: func() (proto.Message, error) {
+					return nil, &sebufhttp.ValidationError{Violations: manyViolations}
+				}, status: 400, fields: manyFields, handlerRuns: true},
+			)
 			for _, ce := range customs {
 				ce := ce
 				sources = append(sources,
@@ -328,6 +343,9 @@ func c10Unit(j *Job, u *JobUnit) error {
 						src.body = []byte(`{"unterminated`)
 					}
 					for _, hk := range allHooks() {
+						if strings.HasSuffix(src.key, "_large") && (hk.installed || mi != 0) {
+							continue // the size family: first RPC of each service, no hook (the hooks do not look at sizes)
+						}
 						cur = hk
 						f := fPlain
 						if hk.installed {
@@ -496,7 +514,7 @@ func c10Unit(j *Job, u *JobUnit) error {
 						if !hk.installed && svc != nil && svc.NewClient != nil && ctKey != "octet" && !strings.Contains(ct, ";") { // the client API offers the two bare media types only
 							c10Client(t, cellBase, cell, svc, m, valid, ct, ex, src)
 						}
-						if !hk.installed && ct == "application/json" && j.Params["stage"] == "tsclient" {
+						if !hk.installed && ct == "application/json" && j.Params["stage"] == "tsclient" && !strings.HasSuffix(src.key, "_large") { // (the MiB-sized bodies go to the Go client only: the staged bridge reads its whole input as one string)
 							// the same error response is handed to the generated TS client by the check (node bridge)
 							var reqObj json.RawMessage
 							if v, err := model.Encode(valid.ProtoReflect(), model.EncOpts{}); err == nil {
